@@ -1075,3 +1075,13 @@ def latent_conflict(fixture, hist):
     not loaded: a latent key conflict that Pony can only report at flush (C14). Labels then denote
     two different things, so view-based monitors skip such states."""
     return fixture.startswith('populated') and any(op[0] == 'create' and op[2] in (1, 2) for op in hist)
+
+_QUICK_MODELS = None
+def deep_model(name):
+    """the models of the quick catalogue get the deepest histories of the thorough tier; the models that only the
+    thorough catalogue adds (option variants of the same relationship kinds) are explored one level shallower"""
+    global _QUICK_MODELS
+    if _QUICK_MODELS is None:
+        from vf.models import catalog
+        _QUICK_MODELS = set(m.name for m in catalog.catalogue('quick'))
+    return name in _QUICK_MODELS
